@@ -99,7 +99,15 @@ def r2_identity(P, rep, ctx):
     ib = P.func(f"{S}.init_stub_base")
     t = norm(ib.node)
     calls = [c for c in local_calls(ib.node) if call_attr(c) == "_set_ublock"]
-    ok = len(calls) == 1 and norm(calls[0]) == "target._set_ublock(-1, src_ub.copy(update={'prev_patch': None}))" and "init_stub_skeleton(target, src_skel)" in t
+    ok = len(calls) == 1 and "init_stub_skeleton(target, src_skel)" in t
+    if ok:
+        c0 = calls[0]
+        a1 = c0.args[1] if len(c0.args) > 1 else None
+        up = kwarg(a1, "update") if isinstance(a1, ast.Call) and norm(a1.func) == "src_ub.copy" else None
+        keys = {k.value: norm(v) for k, v in zip(up.keys, up.values)} if isinstance(up, ast.Dict) and all(isinstance(k, ast.Constant) for k in up.keys) else None
+        # identity fields (record_uuid, patch_uuid, patch_index) must be kept; only the predecessor link and the
+        # (recomputed at commit) payload hash may be reset
+        ok = norm(c0.args[0]) == "-1" and keys is not None and keys.get("prev_patch") == "None" and set(keys) <= {"prev_patch", "hdf5_hashsum"} and all(v == "None" for v in keys.values())
     rep.check(ok, "C10.R2", ib.qual, "the stub keeps record uuid / patch uuid / patch index of the real newest container and only drops prev_patch", ib.loc(), construct="init_stub_base", message="init_stub_base does not install src_ub.copy(update={'prev_patch': None}) (identity of the stub differs from the real newest container)")
     cr = P.func("ih5.record.IH5UserBlock.create")
     rep.check("prev_patch=None if prev is None else prev.patch_uuid" in norm(cr.node) and "patch_index=0 if prev is None else prev.patch_index + 1" in norm(cr.node) and "record_uuid=uuid1() if prev is None else prev.record_uuid" in norm(cr.node), "C10.R2", cr.qual,
